@@ -18,6 +18,7 @@ package main
 import (
 	"context"
 	"crypto/tls"
+	"encoding/binary"
 	"fmt"
 	"log/slog"
 	"net"
@@ -31,6 +32,7 @@ import (
 	"github.com/KafScale/platform/pkg/lfs"
 	"github.com/KafScale/platform/pkg/protocol"
 	"github.com/google/uuid"
+	"github.com/twmb/franz-go/pkg/kerr"
 )
 
 const (
@@ -456,6 +458,38 @@ func (m *lfsModule) forwardToBackend(ctx context.Context, conn net.Conn, payload
 		return nil, err
 	}
 	return frame.Payload, nil
+}
+
+// lfsCheckProduceAck verifies that the broker's reply to a single-partition
+// produce request acknowledges that partition. A reply that cannot be decoded,
+// belongs to another request, omits the partition or carries an error code
+// means the envelope record was not accepted.
+func lfsCheckProduceAck(frame []byte, reqHeader *protocol.RequestHeader, topic string, partition int32) error {
+	if len(frame) < 4 {
+		return fmt.Errorf("produce response too short (%d bytes)", len(frame))
+	}
+	if got := int32(binary.BigEndian.Uint32(frame[:4])); got != reqHeader.CorrelationID {
+		return fmt.Errorf("produce response correlation id %d does not match request %d", got, reqHeader.CorrelationID)
+	}
+	resp, err := parseProduceResponse(frame, reqHeader.APIVersion)
+	if err != nil {
+		return err
+	}
+	for _, t := range resp.Topics {
+		if t.Topic != topic {
+			continue
+		}
+		for _, p := range t.Partitions {
+			if p.Partition != partition {
+				continue
+			}
+			if p.ErrorCode != 0 {
+				return fmt.Errorf("broker rejected produce to %s/%d: %w", topic, partition, kerr.ErrorForCode(p.ErrorCode))
+			}
+			return nil
+		}
+	}
+	return fmt.Errorf("produce response does not cover %s/%d", topic, partition)
 }
 
 func (m *lfsModule) trackOrphans(orphans []orphanInfo) {
